@@ -32,7 +32,7 @@ for p in props:
     ))
 man = dict(
     version=1,
-    setup_cmd='cd lean && lake build && cd .. && /venv/bin/python tools/setup_extra.py',
+    setup_cmd='/venv/bin/python tools/setup_extra.py && cd lean && lake build',
     hooks=dict(guard='PYCOLLADA_VERIF', enable='no instrumentation in /repo: checks import the working tree directly (VERIF_REPO overrides the path)',
                baseline_off_cmd='cd /repo && /venv/bin/python -m pytest -ra -q -p no:cacheprovider --timeout=900 --continue-on-collection-errors',
                source_commits=[], add_only=True),
